@@ -208,5 +208,59 @@ let cmd_loop (_param : string) (arg : string) (_impl : string) : string * string
     let log = canon_log (List.map effect_str effs) in
     let r = match res with ROk -> "OK" | RErr -> "ERR" | RPanic -> "PANIC" | RFuel -> "OUT-OF-FUEL" in
     let s = Printf.sprintf "%s => %s strong=1 recv_after_stop=0" (if log = [] then "-" else String.concat " ; " log) r in
-    (s, "-")
+    (* independent trace predicates evaluated on the implementation's own output *)
+    let verdict =
+      if _impl = "" then "-" else begin
+        let fails = ref [] in
+        let (body, tail) = match split_on_string " => " _impl with
+          | [b; t] -> (b, t) | _ -> (_impl, "") in
+        let items = if body = "-" then [] else split_on_string " ; " body in
+        (* C16: never a panic *)
+        if starts_with "PANIC" tail || _impl = "PANIC" then fails := "C16:runtime-panicked" :: !fails;
+        (* C18: the stop-handle reference is given back, no receive after the stop, the transport
+           close is the last thing that happens, a stop request yields success *)
+        if not (starts_with "PANIC" tail) then begin
+          if nth_tok tail 1 <> "strong=1" then fails := "C18:stop-handle-reference-count" :: !fails;
+          if nth_tok tail 2 <> "recv_after_stop=0" then fails := "C18:receive-after-stop" :: !fails;
+          (match List.rev items with
+           | last :: _ when last = "CLOSE-TRANSPORT" -> ()
+           | _ -> fails := "C18:transport-close-not-last" :: !fails);
+          if List.length (List.filter (fun x -> x = "CLOSE-TRANSPORT") items) <> 1 then
+            fails := "C18:transport-closed-not-exactly-once" :: !fails
+        end;
+        (* C05 (necessary condition): a change-program names a uid already installed at its destination *)
+        let installed = Hashtbl.create 16 in
+        (* C09: commands go to an (address, flow id) some create message came from *)
+        let origins = Hashtbl.create 16 in
+        List.iter (fun e -> match e with
+            | Dgram (a, bytes) ->
+              (match decode_all (length bytes) (firstn (nat_of_int 1024) bytes) with
+               | Ok ms -> List.iter (fun m -> match m with MCr c -> Hashtbl.replace origins (n_to_hex a, n_to_hex c.c_sid) () | _ -> ()) ms
+               | _ -> (* decode what can be decoded *)
+                 let rec go bs fuel = if fuel = 0 || bs = [] then () else
+                     match from_buf bs with
+                     | Ok ((MCr c, k)) -> Hashtbl.replace origins (n_to_hex a, n_to_hex c.c_sid) (); go (skipn k bs) (fuel - 1)
+                     | Ok ((_, k)) -> go (skipn k bs) (fuel - 1)
+                     | _ -> () in
+                 go (firstn (nat_of_int 1024) bytes) 64)
+            | _ -> ()) evs;
+        List.iter (fun it ->
+            let t = String.split_on_char ' ' it in
+            match t with
+            | ["INSTALL"; a; u] -> Hashtbl.replace installed (a, u) ()
+            | ["CHG"; a; h] when String.length h >= 24 ->
+              let le32 off = n_to_hex (n_of_hex (String.concat "" (List.rev_map (fun i -> String.sub h (off + 2 * i) 2) [0; 1; 2; 3]))) in
+              let sid = le32 8 and uid = le32 16 in
+              if not (Hashtbl.mem installed (a, uid)) then fails := "C05:change-program-before-install" :: !fails;
+              let a' = String.sub a 1 (String.length a - 1) in
+              if not (Hashtbl.mem origins (a', sid)) then fails := "C09:command-to-foreign-address-or-flow" :: !fails
+            | ["UPD"; a; h] when String.length h >= 16 ->
+              let le32 off = n_to_hex (n_of_hex (String.concat "" (List.rev_map (fun i -> String.sub h (off + 2 * i) 2) [0; 1; 2; 3]))) in
+              let a' = String.sub a 1 (String.length a - 1) in
+              if not (Hashtbl.mem origins (a', le32 8)) then fails := "C09:command-to-foreign-address-or-flow" :: !fails
+            | "CMD" :: "ok-BUT-WRONG-SCOPE" :: _ -> fails := "C11:returned-scope-is-not-the-selected-program" :: !fails
+            | _ -> ()) items;
+        if !fails = [] then "ok" else "FAIL:" ^ String.concat "," (List.sort_uniq compare !fails)
+      end in
+    (s, verdict)
   end
